@@ -367,3 +367,14 @@ pub fn transform(bytes: &[u8], keep_crlf: bool) -> Vec<u8> {
     }
     out
 }
+
+/// does a `--shell` / `shell:` value name something scrut can start? (bare names go through PATH)
+pub fn shell_exists(s: &str) -> bool {
+    if s.contains('/') {
+        std::path::Path::new(s).exists()
+    } else {
+        ["/usr/local/bin", "/usr/bin", "/bin"]
+            .iter()
+            .any(|d| std::path::Path::new(&format!("{}/{}", d, s)).exists())
+    }
+}
